@@ -263,6 +263,15 @@ func init() {
 	}
 	intrinsics["bytes.Contains"] = intrinsics["strings.Contains"]
 	count := func(fr *frame, args []value) value {
+		if a, ok := args[0].(sval); ok {
+			if b, ok2 := args[1].(sval); ok2 {
+				if ca, c1 := a.concrete(); c1 {
+					if cb, c2 := b.concrete(); c2 {
+						return mkBV(64, uint64(int64(strings.Count(ca, cb))))
+					}
+				}
+			}
+		}
 		s := bytesOf(args[0])
 		sep := bytesOf(args[1])
 		m := len(sep)
@@ -1147,6 +1156,14 @@ func init() {
 		} else {
 			fr.r.obligs = append(fr.r.obligs, obligRec{Kind: "atomicity", Label: "C11.operation-is-one-critical-section", Status: "proved", Detail: "concrete", Entry: fr.r.entry})
 		}
+		return nil
+	}
+}
+
+func init() {
+	// vEmit(label, text): record a concrete observation (translator self-test)
+	apiIntrinsics["vEmit"] = func(fr *frame, args []value) value {
+		fr.r.emits = append(fr.r.emits, concreteString(args[0], "emit label")+"="+toStringPlain(args[1]))
 		return nil
 	}
 }
